@@ -100,12 +100,13 @@ const (
 	rDuplicate
 	rConflict
 	rForgedSig
-	rOddStatus // status value 2 about an honest dealer
+	rOddStatus   // status value 2 about an honest dealer
+	rComplainAll // complaints about every dealer (each of them has to justify)
 	rNumFaults
 )
 
 var rName = []string{"honest", "absent", "false-complaint", "wrong-session-id", "bad-dealer-index", "success-status",
-	"duplicate-bundle", "conflicting-bundles", "forged-signature", "odd-status"}
+	"duplicate-bundle", "conflicting-bundles", "forged-signature", "odd-status", "complains-about-every-dealer"}
 
 const (
 	jHonest = iota
@@ -116,15 +117,18 @@ const (
 	jConflict
 	jBadIndex
 	jForgedSig
+	jPartialOmit // one of the complaints is left out of the bundle, the others are answered validly
+	jPartialBad  // one of the complaints is answered with an invalid share, the others validly
 	jNumFaults
 )
 
 var jName = []string{"honest", "missing", "invalid-share", "wrong-session-id", "duplicate-bundle", "conflicting-bundles",
-	"bad-share-index", "forged-signature"}
+	"bad-share-index", "forged-signature", "one-complaint-left-out", "one-complaint-answered-invalidly"}
 
 type fault struct {
 	Deal, Resp, Just int
 	Victim           int  // party id of the (honest) holder receiving the bad deal
+	Victim2          int  // a second (honest) holder receiving a bad deal from the same dealer (-1: none)
 	Target           int  // party id of the (honest) dealer falsely accused
 	Pos              int  // dBadIndexAt: number of valid deals listed before the out-of-range one (DealBundle.Hash sorts by share index)
 	BadIdx           int  // dBadIndexAt: the out-of-range share index used (set when the bundle is made)
@@ -164,6 +168,7 @@ type scen struct {
 	oldCommits []kyber.Point
 	oldSecret  kyber.Scalar
 	dealPub    map[int][]kyber.Point // party id -> public polynomial it broadcast (unique valid bundle)
+	viaDriver  bool                  // run through dkg.Protocol instances (driver.go) instead of direct calls
 }
 
 func (sc *scen) byNidx(i uint32) *party {
@@ -195,8 +200,12 @@ func (sc *scen) describe() map[string]interface{} {
 			if p.f.Unsol {
 				jn += "(bundle broadcast even if no justification is due)"
 			}
-			fs = append(fs, fmt.Sprintf("party%d(old=%d,new=%d): deal=%s victim=%d resp=%s target=%d just=%s", p.id, p.oidx, p.nidx,
-				dn, p.f.Victim, rName[p.f.Resp], p.f.Target, jn))
+			vs := fmt.Sprint(p.f.Victim)
+			if p.f.Victim2 >= 0 {
+				vs += fmt.Sprintf("+%d", p.f.Victim2)
+			}
+			fs = append(fs, fmt.Sprintf("party%d(old=%d,new=%d): deal=%s victim=%s resp=%s target=%d just=%s", p.id, p.oidx, p.nidx,
+				dn, vs, rName[p.f.Resp], p.f.Target, jn))
 		}
 	}
 	var oi, ni []int
@@ -206,8 +215,12 @@ func (sc *scen) describe() map[string]interface{} {
 	for _, n := range sc.newNodes {
 		ni = append(ni, int(n.Index))
 	}
-	return map[string]interface{}{"suite": sc.e.name, "kind": sc.kind, "fast_sync": sc.fast, "n_old": sc.nOld, "t_old": sc.tOld,
+	m := map[string]interface{}{"suite": sc.e.name, "kind": sc.kind, "fast_sync": sc.fast, "n_old": sc.nOld, "t_old": sc.tOld,
 		"n_new": sc.nNew, "t_new": sc.tNew, "old_indices": oi, "new_indices": ni, "faults": fs}
+	if sc.viaDriver {
+		m["run_through"] = "dkg.Protocol instances over a scripted board and phaser (every packet reaches every node before the phase ends; per-node orders and duplicates from the seed)"
+	}
+	return m
 }
 
 func indices(rng *vh.Rng, n int) []int {
@@ -390,11 +403,15 @@ func (sc *scen) assignFaults(count int, pick func(i int) (int, int, int)) {
 		}
 		d, r, j := pick(i)
 		i++
-		p.f = fault{Deal: d, Resp: r, Just: j, Victim: -1, Target: -1}
+		p.f = fault{Deal: d, Resp: r, Just: j, Victim: -1, Victim2: -1, Target: -1}
 		p.f.Pos = rng.Intn(sc.nNew + 1)
 		p.f.Unsol = rng.Chance(50)
 		if hn := sc.honestNew(); len(hn) > 0 {
-			p.f.Victim = hn[rng.Intn(len(hn))].id
+			k := rng.Intn(len(hn))
+			p.f.Victim = hn[k].id
+			if len(hn) > 1 && rng.Chance(50) {
+				p.f.Victim2 = hn[(k+1+rng.Intn(len(hn)-1))%len(hn)].id
+			}
 		}
 		if ho := sc.honestOld(); len(ho) > 0 {
 			p.f.Target = ho[rng.Intn(len(ho))].id
@@ -488,13 +505,20 @@ func (sc *scen) trueShare(p *party, i uint32) kyber.Scalar {
 	return share.CoefficientsToPriPoly(sc.e.suite, p.gen.VerifPriCoeffs()).Eval(i).V
 }
 
+func rng2(sc *scen) bool { return sc.e.rng.Bool() }
+
 func (sc *scen) spoilDealFor(b *dkg.DealBundle, p *party, victim *party, misdirect bool) {
 	if victim == nil {
 		return
 	}
 	for k := range b.Deals {
 		if b.Deals[k].ShareIndex == uint32(victim.nidx) {
-			s := sc.trueShare(p, uint32(victim.nidx))
+			var s kyber.Scalar
+			if p.gen != nil {
+				s = sc.trueShare(p, uint32(victim.nidx))
+			} else {
+				s = sc.e.randScalar() // driver runs: the dealer's polynomial is inside the Protocol
+			}
 			if misdirect {
 				b.Deals[k].EncryptedShare = sc.encryptFor(p.pub, s) // only the dealer itself could open it
 			} else {
@@ -514,9 +538,12 @@ func (sc *scen) mutateDeals(p *party, base *dkg.DealBundle) []*dkg.DealBundle {
 	if base == nil {
 		return nil
 	}
-	var victim *party
+	var victim, victim2 *party
 	if p.f.Victim >= 0 {
 		victim = sc.parties[p.f.Victim]
+	}
+	if p.f.Victim2 >= 0 {
+		victim2 = sc.parties[p.f.Victim2]
 	}
 	b := copyDeal(base)
 	out := []*dkg.DealBundle{b}
@@ -525,8 +552,10 @@ func (sc *scen) mutateDeals(p *party, base *dkg.DealBundle) []*dkg.DealBundle {
 		return nil
 	case dBadShare:
 		sc.spoilDealFor(b, p, victim, false)
+		sc.spoilDealFor(b, p, victim2, false)
 	case dMisdirected:
 		sc.spoilDealFor(b, p, victim, true)
+		sc.spoilDealFor(b, p, victim2, rng2(sc))
 	case dBadIndex:
 		b.Deals = append(b.Deals, dkg.Deal{ShareIndex: 1000 + uint32(sc.e.rng.Intn(5)), EncryptedShare: sc.e.rng.Bytes(40)})
 	case dBadIndexAt:
@@ -630,6 +659,11 @@ func (sc *scen) mutateResps(p *party, base *dkg.ResponseBundle) []*dkg.ResponseB
 		accuse(b, dkg.Complaint)
 	case rOddStatus:
 		accuse(b, dkg.Status(2))
+	case rComplainAll:
+		b.Responses = nil
+		for _, o := range sc.oldNodes {
+			b.Responses = append(b.Responses, dkg.Response{DealerIndex: o.Index, Status: dkg.Complaint})
+		}
 	}
 	var res []*dkg.ResponseBundle
 	for _, x := range out {
@@ -755,6 +789,16 @@ func (sc *scen) mutateJusts(p *party, base *dkg.JustificationBundle) []*dkg.Just
 	case jBadIndex:
 		b.Justifications = append(b.Justifications, dkg.Justification{ShareIndex: 3000, Share: sc.e.randScalar()})
 	case jForgedSig:
+	case jPartialOmit:
+		if len(b.Justifications) > 0 {
+			k := sc.e.rng.Intn(len(b.Justifications))
+			b.Justifications = append(b.Justifications[:k:k], b.Justifications[k+1:]...)
+		}
+	case jPartialBad:
+		if len(b.Justifications) > 0 {
+			k := sc.e.rng.Intn(len(b.Justifications))
+			b.Justifications[k].Share = sc.e.suite.Scalar().Add(b.Justifications[k].Share, sc.e.scalar(1))
+		}
 	}
 	for _, x := range out {
 		x.Signature = sc.signPacket(p, x)
@@ -1257,6 +1301,18 @@ func (sc *scen) oracles() {
 			fail(tag+"/key-is-sum-of-qual", "a dealer without a unique deliverable deal bundle is in QUAL")
 		}
 	}
+	// honest share holders are in QUAL (resharing: QUAL lists new nodes; fresh: covered by honest-dealer-disqualified too)
+	for _, p := range done {
+		in := map[int]bool{}
+		for _, x := range qualIdx(p.res) {
+			in[x] = true
+		}
+		for _, hN := range sc.honestNew() {
+			if !in[hN.nidx] {
+				fail(tag+"/honest-holder-not-in-qual", fmt.Sprintf("honest share holder %d (new index %d) is not in QUAL %v of honest holder %d", hN.id, hN.nidx, qualIdx(p.res), p.id))
+			}
+		}
+	}
 	// honest dealers stay, unjustified bad dealers go
 	for _, p := range done {
 		for _, d := range sc.parties {
@@ -1278,8 +1334,14 @@ func (sc *scen) oracles() {
 // mustDisqualify: the fault script leaves an invalid (or no) deal to an honest
 // holder without a valid justification.
 func (sc *scen) mustDisqualify(d *party) bool {
-	victimHonest := d.f.Victim >= 0 && !sc.parties[d.f.Victim].faulty && d.f.Victim != d.id
+	hv := func(v int) bool { return v >= 0 && !sc.parties[v].faulty && v != d.id && sc.parties[v].nidx >= 0 }
+	victimHonest := hv(d.f.Victim)
 	unjustified := d.f.Just == jMissing || d.f.Just == jBadShare || d.f.Just == jWrongSid || d.f.Just == jConflict || d.f.Just == jForgedSig
+	if d.f.Just == jPartialOmit || d.f.Just == jPartialBad {
+		// the complaint that is not (validly) answered is drawn among all complaints against the dealer: it is the
+		// complaint of an honest holder for sure when every victim is honest
+		unjustified = hv(d.f.Victim) && (d.f.Victim2 < 0 || hv(d.f.Victim2))
+	}
 	switch d.f.Deal {
 	case dAbsent, dConflict, dForgedSig, dWrongSid, dWrongThr, dBadIndex, dBadIndexAt, dBadPublic:
 		return true
@@ -1448,7 +1510,7 @@ func main() {
 	var cases []string
 	caseID := 0
 	maxN := 5
-	nD, nE, nSet := 212, 40, 150
+	nD, nE, nSet := 215, 40, 150
 	if o.Thorough {
 		maxN = 7
 		nD, nE, nSet = 1500, 200, 600
@@ -1462,6 +1524,15 @@ func main() {
 	}
 	pedersenBatch(envD, nD, maxN, o.Thorough, cs, &caseID)
 	pedersenBatch(envE, nE, maxN, false, nil, &caseID)
+	nDrvD, nDrvE := 36, 12
+	if o.Thorough {
+		nDrvD, nDrvE = 250, 40
+	}
+	if o.Search {
+		nDrvD, nDrvE = 3*nDrvD, 2*nDrvE
+	}
+	driverBatch(envD, nDrvD, maxN)
+	driverBatch(envE, nDrvE, maxN)
 	if !o.Search {
 		envD.setCases(nSet, &cases, &caseID)
 	} else {
@@ -1473,7 +1544,7 @@ func main() {
 	if !o.Search {
 		vh.WriteShards(o.Out, "c11", &vh.CaseFile{Header: "From Kyber Require Import DKG.DKGRun.", Type: "case", Runner: "mismatches", Items: cases}, 60, rep)
 	}
-	rep.Note("timers and channel scheduling of share/dkg/pedersen/protocol.go are not modelled: a phase ends when the harness says so; within a phase every party receives the board in its own order with its own duplications through VerifyPacketSignature and set.Push")
+	rep.Note("synchronous harness: a phase ends when the harness says so; within a phase every party receives the board in its own order with its own duplications through VerifyPacketSignature and set.Push. Protocol-driver runs (driver.go): real dkg.Protocol goroutines over a scripted board and phaser, synchronous schedule (every packet reaches everybody before the next tick), compared with the synchronous calls on the full boards")
 	rep.Write(o.Out)
 	_ = big.NewInt
 }
@@ -1554,10 +1625,30 @@ func pedersenBatch(e *env, n int, maxN int, exhaustive bool, cases *[]string, ca
 		count++
 	}
 	for j := 0; j < jNumFaults; j++ {
+		if j == jPartialOmit || j == jPartialBad {
+			continue // nothing to answer partially: nobody complains about a dealer that behaved until then
+		}
 		for pos := 1; pos <= 3; pos++ {
 			two(false, pos, j)
 		}
 		two(true, 2, j)
+	}
+	// one dealer, invalid shares to TWO honest holders, the complaints answered completely / partly / not at all
+	for _, j := range []int{jHonest, jPartialOmit, jPartialBad, jMissing} {
+		for _, fast := range []bool{false, true} {
+			sc := newScen(e, "fresh", fast, 5, 3, 5, 3)
+			sc.assignFaults(1, func(int) (int, int, int) { return dBadShare, rHonest, j })
+			hn := sc.honestNew()
+			k := rng.Intn(len(hn))
+			for _, p := range sc.parties {
+				if p.faulty {
+					p.f.Victim, p.f.Victim2 = hn[k].id, hn[(k+1+rng.Intn(len(hn)-1))%len(hn)].id
+					p.f.Unsol = false
+				}
+			}
+			e.runScen(sc, cases, caseID)
+			count++
+		}
 	}
 	if exhaustive {
 		// n = 3 (t = 2, 3) and n = 4 (t = 3, 4): every assignment of a deal fault x justification fault
